@@ -366,7 +366,11 @@ func genProgram(r *hx.Rng, operand func(*hx.Rng) *big.Int) []byte {
 			a.pushLabel(id)
 			a.op(0x56)
 			for j := r.Intn(4); j > 0; j-- {
-				a.op(byte(r.U64()))
+				b := byte(r.U64())
+				if b >= 0x60 && b <= 0x7f && r.Intn(4) > 0 { // a PUSH here would swallow the label (kept, but rarer)
+					b = 0xfe
+				}
+				a.op(b)
 			}
 			if r.Intn(20) > 0 {
 				a.label(id)
